@@ -1,4 +1,4 @@
-\* C10 thorough: Ideal design, full alphabet, depth 7, state graph exported
+\* as-built deviation RepeatAccepted (Entity.parent): graph exported so that the harness recognises exactly this failure mode (no property checked here, see NegRepeatAccepted.cfg)
 SPECIFICATION Spec
 CONSTANTS
   ReadOps = {"ws.get", "group.get", "object.get", "data.get", "pgroup.get", "type.get"}
@@ -8,19 +8,10 @@ CONSTANTS
   Helpers = {"read_ui_json", "input_file", "input_file_ws", "path2workspace", "monitored_copy"}
   MaxVersion = 7
   MaxDepth = 7
-  Deviations = {}
+  Deviations = {"RepeatAccepted"}
 CONSTRAINT DepthBound
 VIEW vw
 INVARIANT TypeOK
-PROPERTY ReadOnlyFrozen
-PROPERTY ClosedFrozen
-PROPERTY WritesRefused
-PROPERTY RepeatRefused
-PROPERTY ReadsWork
-PROPERTY HelpersPreserveSource
-PROPERTY NoSilentUpgrade
-PROPERTY WritableOpensAreExplicit
-PROPERTY ChangeNeedsWritable
 INVARIANT ExportState
 ACTION_CONSTRAINT ExportTrans
 CHECK_DEADLOCK FALSE
